@@ -5,6 +5,7 @@ import (
 	"fmt"
 	"math/rand"
 	"sort"
+	"time"
 
 	"github.com/bartossh/Computantis/src/accountant"
 	"github.com/bartossh/Computantis/src/spice"
@@ -349,7 +350,8 @@ func c14Worker(w *core.WorkerCtx) {
 	if w.Batch == 0 {
 		c14AfterTruncation(w)
 	}
-	scen := w.Pick(3, 12)
+	// a closed node keeps ~8 MB referenced for five minutes (the stores' own ticker goroutines): few scenarios per process
+	scen := w.Pick(3, 2)
 	for si := 0; si < scen; si++ {
 		rng := core.Rand(w.Seed, "C14", w.Batch, si)
 		p := ledger.RandomProfile(rng, w.Thorough())
@@ -513,7 +515,12 @@ func init() {
 			Assumptions: []string{ledgerAssume, "peers of this check have empty trusted stores (the trusted store is local configuration and is not part of the stream)"},
 			MinEvals:    100, MinNontriv: 8,
 		},
-		Plan:   ledgerPlan(8, 42),
+		Plan: func(tier string) core.Plan {
+			if tier == "thorough" {
+				return core.Plan{Batches: 240, Parallel: 6, Timeout: 40 * time.Minute}
+			}
+			return core.Plan{Batches: 8, Parallel: 6, Timeout: 8 * time.Minute}
+		},
 		Worker: c14Worker,
 	})
 }
